@@ -52,7 +52,7 @@ add("C11", "model_checking",
     "sequences whose one-per-call run contains an error element are outside the property's domain (counted, not judged); trusted: c11::judge",
     "bounded-exhaustive enumeration of sequences x all partitions (stateless exploration of real code, differential oracle)", "DESIGN.md §5 C11", "E-ENUM")
 add("C12", "model_checking",
-    "All 64 allowed-version sets (16 subsets of {5,7,9,10} x extras {none, {6}, {0,11,65535}, 24 numbers aliasing 5/7/9/10 under mod-2^k masks and byte swap}) x every buffer of 1..=3 (thorough 4) packets over a 29-packet menu (incl. three one-byte tails and five well-formed packets whose version field aliases a real one in its low byte or byte-swapped) x 6 prior histories delivered under the configuration (two contain unparsable versions and garbage) and 3 delivered before the configuration is narrowed, the buffer delivered twice; EVERY call of the history is compared with a parser that allows all 65 536 versions started from the state the subject should be in: result = maximal leading part with allowed versions; caches = those of the all-allowing parser fed only that part; unknown allowed versions are UnknownVersion errors; allowed_versions itself is unchanged by every call.",
+    "All 64 allowed-version sets (16 subsets of {5,7,9,10} x extras {none, {6}, {0,11,65535}, 24 numbers aliasing 5/7/9/10 under mod-2^k masks and byte swap}) x every buffer of 1..=3 (thorough 4) packets over a 29-packet menu (incl. three one-byte tails and five well-formed packets whose version field aliases a real one in its low byte or byte-swapped) x 6 prior histories delivered under the configuration (two contain unparsable versions and garbage) and 3 delivered before the configuration is narrowed, the buffer delivered twice; EVERY call of the history is compared with a parser that allows all 65 536 versions started from the state the subject should be in: result = maximal leading part with allowed versions; caches = those of the all-allowing parser fed only that part; unknown allowed versions are UnknownVersion errors; allowed_versions itself is unchanged by every call; independently of the all-allowing run, every result must be a decomposition of its buffer that ends silently only in front of a version outside S (C02's law).",
     "trusted: c12::judge",
     "bounded-exhaustive enumeration of configurations x buffers x states (differential oracle)", "DESIGN.md §5 C12", "E-ENUM")
 add("C13", "model_checking",
